@@ -33,11 +33,13 @@ func init() {
 			"(C17-key) the peer key is namespace + owner-or-pod name + kind and the owners map is keyed by it; " +
 			"(C17-pure) no unreviewed long-lived write (memo) on the query paths that list peers. " +
 			"(C17-spec) the constructor for Pod resources and the constructor for pod templates read the same fields of PodSpec / Container / ContainerPort (transitively). " +
+			"(C17-labels) the label set a selector is matched against is the Labels field of a pod or namespace object (or a parameter naming one), never a set computed from further per-pod state: the same-owner consistency check and the cache key cover Labels only, so anything else makes the result depend on which replica represents the workload. " +
 			"NOT decided: collisions between generated pod names and real pod names in podsMap; equality of outputs under re-expression."
 		rules.WorkloadExpansion(p, r, "C17")
 		rules.WorkloadIdentity(p, r, "C17-identity")
 		rules.KindTables(p, r, "C17-kinds")
 		rules.QueryPathWrites(p, r, "C17-pure")
 		rules.PodSpecReadAlike(p, r, "C17-spec")
+		rules.SelectorsMatchObjectLabels(p, r, "C17-labels")
 	})
 }
